@@ -1,10 +1,1245 @@
 package main
 
-import "errors"
+// Stream "crash": directory images at every file-system system-call boundary of real sessions (strace), the real
+// Open()/Replay() on every image in a child process, and the crash-safety oracles of C02, C07, C10, C13, C17.
+// No Lean model is involved here; crashAbstract (crash_image.go) provides the abstract description of every image
+// a model stream can compare against.
+//
+//   sstcheck crash --seed S --n <sessions> --tier quick|thorough [--flavour all|sync|async|reject|wal|nested] [--only <session>]
+//
+// flavour -> property: sync C02, async C13, reject C17, wal C07, nested C10 (sync sessions, only C10 is reported).
+
+import (
+	"bytes"
+	"context"
+	"errors"
+	"fmt"
+	"os"
+	"os/exec"
+	"path/filepath"
+	"sort"
+	"strings"
+	"sync"
+	"time"
+)
 
 var crashFlavour = "all"
 var crashDebugDir = ""
 
+const crashWorkers = 12
+
+// ---------------------------------------------------------------------------------------------
+// images
+
+type crashImage struct {
+	EvIdx        int // the image holds after this event (-1 = before the session)
+	FS           *crashFS
+	Hash         string
+	Acked        int // ops acknowledged (E marker seen)
+	Inflight     int // op begun and not acknowledged, -1 = none
+	LastWalClose int // event index of the last close of a log file opened for writing (-1 = none yet)
+	Abs          *crashAbs
+	Weight       int
+}
+
+type crashRun struct {
+	S        *crashSession
+	Events   []*crashEvent
+	Images   []*crashImage
+	ExitCode int
+	Stderr   string
+	Syscalls map[string]int
+}
+
+func (r *crashRun) eventStr(i int) string {
+	if i < 0 || i >= len(r.Events) {
+		return "#-1 (before the session)"
+	}
+	return r.Events[i].String()
+}
+
+func crashIsWalPath(p string, bare bool) bool {
+	if !strings.HasSuffix(p, ".wal") {
+		return false
+	}
+	if bare {
+		return !strings.Contains(p, "/")
+	}
+	return strings.HasPrefix(p, "wal/")
+}
+
+// crashRunSession traces the session in a fresh directory and builds every image. This is the entry point another
+// stream can use as well (images carry the in-memory tree and the abstract description).
+func crashRunSession(s *crashSession, debugPrefix string) (*crashRun, error) {
+	scratch, err := os.MkdirTemp("", "verif-crash-sess-")
+	if err != nil {
+		return nil, err
+	}
+	defer os.RemoveAll(scratch)
+	db := filepath.Join(scratch, "db")
+	if err := os.Mkdir(db, 0o755); err != nil {
+		return nil, err
+	}
+	specPath := filepath.Join(scratch, "spec.txt")
+	if err := os.WriteFile(specPath, []byte(s.Spec()), 0o644); err != nil {
+		return nil, err
+	}
+	keep := ""
+	if debugPrefix != "" {
+		keep = debugPrefix + ".strace"
+		_ = os.WriteFile(debugPrefix+".spec", []byte(s.Spec()), 0o644)
+	}
+	initial, err := crashLoadFS(db)
+	if err != nil {
+		return nil, err
+	}
+	t, err := crashTraceRun(db, s.MaxStr, 10*time.Minute, keep, "crashchild", "--dir", db, "--spec", specPath, "--markfd", "3")
+	if err != nil {
+		return nil, err
+	}
+	run := &crashRun{S: s, Events: t.Events, ExitCode: t.ExitCode, Stderr: t.Stderr, Syscalls: t.Syscalls}
+	for _, e := range t.Events {
+		if (e.Kind == "B" || e.Kind == "E") && (e.Op < 0 || e.Op >= len(s.Ops)) {
+			return nil, fmt.Errorf("marker for unknown op %d", e.Op)
+		}
+		switch e.Kind {
+		case "B":
+			s.Ops[e.Op].BIdx = e.Idx
+		case "E":
+			s.Ops[e.Op].EIdx = e.Idx
+			s.Ops[e.Op].Result = e.Marker
+		}
+	}
+	imgs, err := crashBuildImages(initial, t.Events, s.Bare)
+	if err != nil {
+		return nil, err
+	}
+	run.Images = imgs
+	// the replayed tree must be what the child left behind, otherwise the parser or the replayer missed something
+	final, err := crashLoadFS(db)
+	if err != nil {
+		return nil, err
+	}
+	if len(imgs) > 0 && t.Pending == 0 && final.hash() != imgs[len(imgs)-1].FS.hash() {
+		return nil, fmt.Errorf("replayed tree differs from the directory the session left behind: replay %v / disk %v",
+			crashListing(imgs[len(imgs)-1].FS), crashListing(final))
+	}
+	if debugPrefix != "" {
+		var sb strings.Builder
+		for _, e := range t.Events {
+			sb.WriteString(e.String() + "\n")
+		}
+		_ = os.WriteFile(debugPrefix+".events", []byte(sb.String()), 0o644)
+		sb.Reset()
+		for _, im := range imgs {
+			fmt.Fprintf(&sb, "ev=%d acked=%d inflight=%d %s %s\n", im.EvIdx, im.Acked, im.Inflight, im.Hash, im.Abs.Line())
+		}
+		_ = os.WriteFile(debugPrefix+".abs", []byte(sb.String()), 0o644)
+	}
+	return run, nil
+}
+
+func crashListing(fs *crashFS) string {
+	var out []string
+	for _, p := range fs.paths() {
+		n := fs.nodes[p]
+		if n.dir {
+			out = append(out, p+"/")
+		} else {
+			out = append(out, fmt.Sprintf("%s(%d)", p, len(n.data)))
+		}
+	}
+	return strings.Join(out, " ")
+}
+
+// crashBuildImages applies the events one at a time. An entry is produced at the start, after every event that
+// changed the tree, and whenever the oracle context changes while the tree stays the same (op begun, op acknowledged,
+// log file closed) - consecutive identical entries are skipped.
+func crashBuildImages(initial *crashFS, events []*crashEvent, bare bool) ([]*crashImage, error) {
+	fs := initial.snapshot()
+	var out []*crashImage
+	acked, inflight, lastClose := 0, -1, -1
+	hash := fs.hash()
+	abs := crashAbstract(fs, bare)
+	push := func(ev int, snap *crashFS) {
+		if n := len(out); n > 0 {
+			l := out[n-1]
+			if l.Hash == hash && l.Acked == acked && l.Inflight == inflight && l.LastWalClose == lastClose {
+				return
+			}
+		}
+		out = append(out, &crashImage{EvIdx: ev, FS: snap, Hash: hash, Acked: acked, Inflight: inflight, LastWalClose: lastClose, Abs: abs})
+	}
+	cur := fs.snapshot()
+	push(-1, cur)
+	for _, e := range events {
+		switch e.Kind {
+		case "B":
+			inflight = e.Op
+			push(e.Idx, cur)
+			continue
+		case "E":
+			acked, inflight = e.Op+1, -1
+			push(e.Idx, cur)
+			continue
+		case "close":
+			if e.WrFile && crashIsWalPath(e.Path, bare) {
+				lastClose = e.Idx
+				push(e.Idx, cur)
+			}
+			continue
+		}
+		if !e.mutating() {
+			continue
+		}
+		changed, err := fs.apply(e)
+		if err != nil {
+			return nil, fmt.Errorf("replayer: %w", err)
+		}
+		if changed {
+			cur = fs.snapshot()
+			hash = cur.hash()
+			abs = crashAbstract(cur, bare)
+			push(e.Idx, cur)
+		}
+	}
+	return out, nil
+}
+
+// ---------------------------------------------------------------------------------------------
+// probes (child processes on a materialised copy of an image)
+
+type crashProbe struct {
+	Raw   string
+	Open  string // "ok" or "err:..."
+	Vals  map[string]string
+	Recs  []string // walprobe
+	Fatal error    // the probe could not be run at all (harness problem)
+}
+
+func crashParseProbe(line string, bare bool) *crashProbe {
+	p := &crashProbe{Raw: line, Vals: map[string]string{}}
+	for i, f := range strings.Fields(line) {
+		kv := strings.SplitN(f, "=", 2)
+		if bare {
+			switch {
+			case i == 0 && len(kv) == 2 && kv[0] == "replay":
+				p.Open = kv[1]
+			case i == 1:
+			default:
+				p.Recs = append(p.Recs, f)
+			}
+			continue
+		}
+		if len(kv) != 2 {
+			continue
+		}
+		switch kv[0] {
+		case "open":
+			p.Open = kv[1]
+		case "close":
+		default:
+			p.Vals[kv[0]] = kv[1]
+		}
+	}
+	return p
+}
+
+func crashProbeFS(fs *crashFS, keys []string, bare bool) *crashProbe {
+	self, err := os.Executable()
+	if err != nil {
+		return &crashProbe{Fatal: err}
+	}
+	dir, err := os.MkdirTemp("", "verif-crash-img-")
+	if err != nil {
+		return &crashProbe{Fatal: err}
+	}
+	defer os.RemoveAll(dir)
+	if err := fs.materialise(dir); err != nil {
+		return &crashProbe{Fatal: err}
+	}
+	ctx, cancel := context.WithTimeout(context.Background(), 90*time.Second)
+	defer cancel()
+	var cmd *exec.Cmd
+	if bare {
+		cmd = exec.CommandContext(ctx, self, "walprobe", "--dir", dir)
+	} else {
+		cmd = exec.CommandContext(ctx, self, "crashprobe", "--dir", dir, "--keys", strings.Join(keys, ","))
+	}
+	var so, se bytes.Buffer
+	cmd.Stdout, cmd.Stderr = &so, &se
+	err = cmd.Run()
+	line := strings.TrimSpace(so.String())
+	if k := strings.LastIndexByte(line, '\n'); k >= 0 {
+		line = line[k+1:]
+	}
+	if err != nil || line == "" {
+		// the library killed the process (log.Panicf in a background goroutine) or it hung: reopening did not succeed
+		var ee *exec.ExitError
+		if err != nil && !errors.As(err, &ee) {
+			return &crashProbe{Fatal: err}
+		}
+		tail := se.String()
+		if len(tail) > 200 {
+			tail = tail[:200]
+		}
+		if ctx.Err() != nil {
+			return &crashProbe{Fatal: fmt.Errorf("probe child hung for 90 s on an image (machine overloaded, or Open() deadlocks): %s", tail)}
+		}
+		what := "crashed"
+		p := &crashProbe{Open: "err:" + what + ":" + crashSanitize(tail), Vals: map[string]string{}}
+		p.Raw = "open=" + p.Open
+		return p
+	}
+	if strings.Contains(line, "err:timeout") {
+		return &crashProbe{Fatal: fmt.Errorf("probe child gave up after 60 s on an image (machine overloaded, or Open() deadlocks)")}
+	}
+	return crashParseProbe(line, bare)
+}
+
+func crashParallel(n int, f func(i int)) {
+	var wg sync.WaitGroup
+	ch := make(chan int)
+	w := crashWorkers
+	if w > n {
+		w = n
+	}
+	for k := 0; k < w; k++ {
+		wg.Add(1)
+		go func() {
+			defer wg.Done()
+			for i := range ch {
+				f(i)
+			}
+		}()
+	}
+	for i := 0; i < n; i++ {
+		ch <- i
+	}
+	close(ch)
+	wg.Wait()
+}
+
+type crashProbeCache struct {
+	mu sync.Mutex
+	m  map[string]*crashProbe
+}
+
+// probeAll probes every distinct tree of the list once
+func (c *crashProbeCache) probeAll(list []*crashFS, hashes []string, keys []string, bare bool) error {
+	var todoFS []*crashFS
+	var todoH []string
+	seen := map[string]bool{}
+	c.mu.Lock()
+	for i, h := range hashes {
+		if _, ok := c.m[h]; !ok && !seen[h] {
+			seen[h] = true
+			todoFS = append(todoFS, list[i])
+			todoH = append(todoH, h)
+		}
+	}
+	c.mu.Unlock()
+	results := make([]*crashProbe, len(todoFS))
+	crashParallel(len(todoFS), func(i int) { results[i] = crashProbeFS(todoFS[i], keys, bare) })
+	c.mu.Lock()
+	defer c.mu.Unlock()
+	for i, r := range results {
+		if r.Fatal != nil {
+			return fmt.Errorf("probe could not run: %w", r.Fatal)
+		}
+		c.m[todoH[i]] = r
+	}
+	return nil
+}
+
+// ---------------------------------------------------------------------------------------------
+// oracles
+
+func crashPropOf(flavour string) string {
+	switch flavour {
+	case "sync":
+		return "C02"
+	case "async":
+		return "C13"
+	case "reject":
+		return "C17"
+	case "wal":
+		return "C07"
+	}
+	return "C10"
+}
+
+// the object an open failure is most likely about: the error text names the path, the class list comes from the image
+func crashOpenFailClass(a *crashAbs, open string) string {
+	if strings.Contains(open, "valuenil") || strings.Contains(open, "keynil") {
+		return "rejected-call-reached-the-log" // the replay hands the memstore a record it refuses
+	}
+	cls := a.Class()
+	low := strings.ToLower(open)
+	walish := strings.Contains(low, "wal")
+	switch {
+	case walish:
+		for _, w := range a.Wals {
+			if !w.Header {
+				return "wal-without-header"
+			}
+		}
+		for _, w := range a.Wals {
+			if w.Torn {
+				return "torn-wal-tail"
+			}
+		}
+		if cls == "clean" || cls == "several-wal-files" {
+			return "wal-with-unreplayable-record"
+		}
+	}
+	return cls
+}
+
+type crashRefs struct {
+	after []crashRefState     // after[i] = reference map after the accepted mutations among ops[0:i]
+	hist  map[string][]string // every value (digest) a key ever had, in order
+}
+
+func crashBuildRefs(s *crashSession) *crashRefs {
+	r := &crashRefs{hist: map[string][]string{}}
+	st := crashRefState{m: map[string]string{}, wild: map[string]bool{}}
+	r.after = append(r.after, st.clone())
+	for _, o := range s.Ops {
+		if o.ok() && o.mutation() {
+			st.applyOp(o)
+			if o.isPut() && !o.Invalid {
+				r.hist[o.Key] = append(r.hist[o.Key], o.Digest)
+			}
+		}
+		r.after = append(r.after, st.clone())
+	}
+	return r
+}
+
+func crashContentSig(refs *crashRefs, key, want, got string) string {
+	if strings.HasPrefix(got, "!") {
+		return "read-fails-after-recovery"
+	}
+	older := false
+	for _, h := range refs.hist[key] {
+		if h == got {
+			older = true
+		}
+	}
+	switch {
+	case want != "-" && got == "-":
+		return "lost-acked-write"
+	case want == "-" && older:
+		return "deleted-key-returns"
+	case older:
+		return "stale-value-after-recovery"
+	}
+	return "unexpected-value"
+}
+
+type crashEval struct {
+	res     *Result
+	idx     int
+	run     *crashRun
+	refs    *crashRefs
+	prop    string
+	report  bool            // false: evaluate for statistics only (flavour nested reports C10 only)
+	badHash map[string]bool // images on which a depth-1 oracle failed (not used as starting points for C10)
+}
+
+func (ev *crashEval) caseStr(im *crashImage, probe *crashProbe, extra string) string {
+	infl := "none"
+	if im.Inflight >= 0 {
+		infl = fmt.Sprintf("%d:%s", im.Inflight, ev.run.S.Ops[im.Inflight].Line)
+	}
+	return fmt.Sprintf("%s | image after event %s; acked ops: %d; in flight: %s%s | image: %s | reopen: %s",
+		ev.run.S.Describe(), ev.run.eventStr(im.EvIdx), im.Acked, infl, extra, im.Abs.Line(), clipN(probe.Raw, 600))
+}
+
+func clipN(s string, n int) string {
+	if len(s) > n {
+		return s[:n] + "…"
+	}
+	return s
+}
+
+func (ev *crashEval) violateAt(im *crashImage, prop, sig, detail, cs string) {
+	ev.badHash[im.Hash] = true
+	ev.violate(prop, sig, detail, cs)
+}
+
+func (ev *crashEval) violate(prop, sig, detail, cs string) {
+	if !ev.report && prop != "C10" {
+		ev.res.Stat("unreported-depth1-violation:" + prop + ":" + sig)
+		return
+	}
+	ev.res.Violate(ev.idx, prop, sig, detail, cs)
+}
+
+// C02 / C17: acknowledged effects exactly, the op in flight present or absent
+func (ev *crashEval) evalSync(im *crashImage, probe *crashProbe) {
+	ev.res.Evaluations++
+	s := ev.run.S
+	if probe.Open != "ok" {
+		sig := "open-fails:" + crashOpenFailClass(im.Abs, probe.Open)
+		if ev.prop == "C17" && im.Abs.Class() == "clean" {
+			for i := 0; i < len(s.Ops) && s.Ops[i].BIdx >= 0 && s.Ops[i].BIdx <= im.EvIdx; i++ {
+				if s.Ops[i].Invalid {
+					sig = "open-fails:rejected-call-reached-the-log"
+				}
+			}
+		}
+		ev.violateAt(im, ev.prop, sig, "re-opening the image failed: "+probe.Open, ev.caseStr(im, probe, ""))
+		return
+	}
+	st := ev.refs.after[im.Acked]
+	for _, k := range s.Keys {
+		if st.wild[k] {
+			continue
+		}
+		got, ok := probe.Vals[k]
+		if !ok {
+			got = "?"
+		}
+		want := st.get(k)
+		allowed := []string{want}
+		if im.Inflight >= 0 {
+			o := s.Ops[im.Inflight]
+			if o.mutation() && o.Key == k {
+				switch {
+				case o.isPut() && o.Invalid:
+					continue
+				case o.isPut():
+					allowed = append(allowed, o.Digest)
+				default:
+					allowed = append(allowed, "-")
+				}
+			}
+		}
+		good := false
+		for _, a := range allowed {
+			good = good || a == got
+		}
+		if !good {
+			sig := crashContentSig(ev.refs, k, want, got) + ":" + im.Abs.Class()
+			ev.violateAt(im, ev.prop, sig, fmt.Sprintf("key %s reads %s after re-opening, allowed: %v", k, got, allowed), ev.caseStr(im, probe, ""))
+			return
+		}
+	}
+}
+
+// C13: some prefix of the acknowledged sequence (the op in flight may be the last element), not shorter than what
+// had been acknowledged when the log file was last closed
+func (ev *crashEval) evalAsync(im *crashImage, probe *crashProbe) {
+	ev.res.Evaluations++
+	s := ev.run.S
+	if probe.Open != "ok" {
+		ev.violateAt(im, "C13", "open-fails:"+crashOpenFailClass(im.Abs, probe.Open), "re-opening the image failed: "+probe.Open, ev.caseStr(im, probe, ""))
+		return
+	}
+	var muts []*crashOp
+	lower := 0
+	for i := 0; i < im.Acked; i++ {
+		o := s.Ops[i]
+		if o.ok() && o.mutation() {
+			muts = append(muts, o)
+			if o.EIdx >= 0 && o.EIdx < im.LastWalClose {
+				lower = len(muts)
+			}
+		}
+	}
+	if im.Inflight >= 0 {
+		o := s.Ops[im.Inflight]
+		if o.mutation() && (o.Result == "" || o.ok()) {
+			muts = append(muts, o)
+		}
+	}
+	st := crashRefState{m: map[string]string{}, wild: map[string]bool{}}
+	match := func() bool {
+		for _, k := range s.Keys {
+			if probe.Vals[k] != st.get(k) {
+				return false
+			}
+		}
+		return true
+	}
+	found := -1
+	short := -1
+	for p := 0; p <= len(muts); p++ {
+		if p > 0 {
+			st.applyOp(muts[p-1])
+		}
+		if match() {
+			if p >= lower {
+				found = p
+			} else {
+				short = p
+			}
+		}
+	}
+	ev.res.Stat(fmt.Sprintf("C13:prefix-lower-bound>0:%v", lower > 0))
+	if found >= 0 {
+		if found < len(muts) {
+			ev.res.Stat("C13:image-lost-a-suffix")
+		}
+		return
+	}
+	sig := "not-a-prefix:" + im.Abs.Class()
+	detail := fmt.Sprintf("content equals the reference after no prefix of the %d mutations (lower bound %d)", len(muts), lower)
+	if short >= 0 {
+		sig = "lost-writes-from-before-rotation:" + im.Abs.Class()
+		detail = fmt.Sprintf("content equals the reference after %d mutations, but %d had been acknowledged before the log file was closed", short, lower)
+	}
+	ev.violateAt(im, "C13", sig, detail, ev.caseStr(im, probe, ""))
+}
+
+// C07: replay succeeds and yields a prefix of the appended records holding every acknowledged synchronous append
+func (ev *crashEval) evalWal(im *crashImage, probe *crashProbe) {
+	ev.res.Evaluations++
+	s := ev.run.S
+	if probe.Open != "ok" {
+		ev.violateAt(im, "C07", "replay-fails:"+crashOpenFailClass(im.Abs, "wal "+probe.Open), "replaying the image failed: "+probe.Open, ev.caseStr(im, probe, ""))
+		return
+	}
+	var recs []string
+	need := 0
+	for _, o := range s.Ops {
+		if o.Kind != "append" && o.Kind != "appendsync" {
+			continue
+		}
+		if o.BIdx < 0 || o.BIdx > im.EvIdx {
+			break
+		}
+		if o.EIdx >= 0 && o.EIdx <= im.EvIdx && !o.ok() {
+			continue
+		}
+		recs = append(recs, o.Digest)
+		if o.Kind == "appendsync" && o.EIdx >= 0 && o.EIdx <= im.EvIdx {
+			need = len(recs)
+		}
+	}
+	got := probe.Recs
+	bad := len(got) > len(recs)
+	for i := 0; !bad && i < len(got); i++ {
+		g := got[i]
+		if g == "-" {
+			g = "."
+		}
+		bad = g != recs[i]
+	}
+	switch {
+	case bad:
+		ev.violateAt(im, "C07", "replay-not-a-prefix:"+im.Abs.Class(), fmt.Sprintf("replayed %d records that are no prefix of the %d appended", len(got), len(recs)), ev.caseStr(im, probe, ""))
+	case len(got) < need:
+		ev.violateAt(im, "C07", "lost-synced-record:"+im.Abs.Class(), fmt.Sprintf("replayed %d records, %d were appended synchronously and acknowledged", len(got), need), ev.caseStr(im, probe, ""))
+	default:
+		if len(got) < len(recs) {
+			ev.res.Stat("C07:image-lost-a-suffix")
+		}
+	}
+}
+
+// ---------------------------------------------------------------------------------------------
+// C10: recovery interrupted
+
+type crashNested struct {
+	im       *crashImage
+	expected *crashProbe
+	events   []*crashEvent
+	openEnd  int // index of the E marker of Open in events
+	err      error
+}
+
+func crashTraceRecovery(im *crashImage, keys []string, maxStr int, keepLog string) *crashNested {
+	n := &crashNested{im: im}
+	scratch, err := os.MkdirTemp("", "verif-crash-nest-")
+	if err != nil {
+		n.err = err
+		return n
+	}
+	defer os.RemoveAll(scratch)
+	db := filepath.Join(scratch, "db")
+	if err := os.Mkdir(db, 0o755); err != nil {
+		n.err = err
+		return n
+	}
+	if err := im.FS.materialise(db); err != nil {
+		n.err = err
+		return n
+	}
+	t, err := crashTraceRun(db, maxStr, 3*time.Minute, keepLog, "crashprobe", "--dir", db, "--keys", strings.Join(keys, ","), "--markfd", "3")
+	if err != nil {
+		n.err = err
+		return n
+	}
+	line := strings.TrimSpace(t.Stdout)
+	if k := strings.LastIndexByte(line, '\n'); k >= 0 {
+		line = line[k+1:]
+	}
+	if line == "" {
+		line = "open=err:crashed:" + crashSanitize(clipN(t.Stderr, 200))
+	}
+	n.expected = crashParseProbe(line, false)
+	// the replayed tree must be what the recovery left behind
+	chk := im.FS.snapshot()
+	for _, e := range t.Events {
+		if e.mutating() {
+			if _, err := chk.apply(e); err != nil {
+				n.err = fmt.Errorf("nested replayer: %w", err)
+				return n
+			}
+		}
+	}
+	if final, err := crashLoadFS(db); err != nil {
+		n.err = err
+		return n
+	} else if t.Pending == 0 && final.hash() != chk.hash() {
+		n.err = fmt.Errorf("nested: replayed tree differs from the directory the recovery left behind: replay %v / disk %v", crashListing(chk), crashListing(final))
+		return n
+	}
+	n.events = t.Events
+	n.openEnd = len(t.Events)
+	for _, e := range t.Events {
+		if e.Kind == "E" && e.Op == 0 {
+			n.openEnd = e.Idx
+			break
+		}
+	}
+	return n
+}
+
+// crashEventObject names the kind of object an event touches
+func crashEventObject(e *crashEvent) string {
+	p := e.Path
+	switch {
+	case p == "wal":
+		return "wal-dir"
+	case strings.HasPrefix(p, "wal/"):
+		return "wal-file"
+	case strings.HasPrefix(p, "sstable_compaction"):
+		if strings.Contains(p, "/") {
+			return "compaction-file"
+		}
+		return "compaction-dir"
+	case strings.HasPrefix(p, "sstable_"):
+		if strings.Contains(p, "/") {
+			return "table-file"
+		}
+		return "table-dir"
+	}
+	return "other"
+}
+
+type crashNestedImage struct {
+	at    string // kind of the interrupting event and of its object, e.g. unlink-wal-file
+	fs    *crashFS
+	hash  string
+	abs   *crashAbs
+	where string // description of the interruption point
+	phase string // recovery | close
+	perm  bool
+}
+
+func crashPermutations(m int, all bool) [][]int {
+	id := make([]int, m)
+	for i := range id {
+		id[i] = i
+	}
+	if all && m <= 4 {
+		var out [][]int
+		var rec func(cur []int, used []bool)
+		rec = func(cur []int, used []bool) {
+			if len(cur) == m {
+				same := true
+				for i := range cur {
+					same = same && cur[i] == i
+				}
+				if !same {
+					out = append(out, append([]int{}, cur...))
+				}
+				return
+			}
+			for i := 0; i < m; i++ {
+				if !used[i] {
+					used[i] = true
+					rec(append(cur, i), used)
+					used[i] = false
+				}
+			}
+		}
+		rec(nil, make([]bool, m))
+		return out
+	}
+	rev := make([]int, m)
+	for i := range rev {
+		rev[i] = m - 1 - i
+	}
+	out := [][]int{rev}
+	if m >= 3 {
+		rot := make([]int, m)
+		for i := range rot {
+			rot[i] = (i + 1) % m
+		}
+		out = append(out, rot)
+		if all {
+			for sft := 2; sft < m; sft++ {
+				r := make([]int, m)
+				for i := range r {
+					r[i] = (i + sft) % m
+				}
+				out = append(out, r)
+			}
+		}
+	}
+	return out
+}
+
+// crashNestedImages applies the recovery events to the depth-1 image; additionally the unlink runs that empty one
+// directory through a directory descriptor (os.RemoveAll) are replayed in other orders.
+func crashNestedImages(n *crashNested, allOrders bool) ([]*crashNestedImage, error) {
+	fs := n.im.FS.snapshot()
+	var out []*crashNestedImage
+	seen := map[string]bool{n.im.Hash: true}
+	add := func(e *crashEvent, snap *crashFS, where, phase string, perm bool) {
+		h := snap.hash()
+		if seen[h] {
+			return
+		}
+		seen[h] = true
+		at := e.Kind + "-" + crashEventObject(e)
+		if perm {
+			at += "-other-listing-order"
+		}
+		out = append(out, &crashNestedImage{at: at, fs: snap, hash: h, abs: crashAbstract(snap, false), where: where, phase: phase, perm: perm})
+	}
+	evs := n.events
+	runEnd := 0
+	for i := 0; i < len(evs); i++ {
+		e := evs[i]
+		if !e.mutating() {
+			continue
+		}
+		phase := "recovery"
+		if e.Idx > n.openEnd {
+			phase = "close"
+		}
+		// a run of dirfd-relative unlinks in the same directory
+		if e.Kind == "unlink" && e.DirRel && i >= runEnd {
+			run := []*crashEvent{e}
+			j := i + 1
+			for ; j < len(evs); j++ {
+				f := evs[j]
+				if f.Kind == "unlink" && f.DirRel && f.DirKey == e.DirKey {
+					run = append(run, f)
+					continue
+				}
+				if f.mutating() || f.Kind == "B" || f.Kind == "E" {
+					break
+				}
+			}
+			runEnd = j
+			if len(run) >= 2 {
+				base := fs.snapshot()
+				for _, perm := range crashPermutations(len(run), allOrders) {
+					alt := base.snapshot()
+					for k := 0; k < len(perm)-1; k++ {
+						if _, err := alt.apply(run[perm[k]]); err != nil {
+							return nil, fmt.Errorf("nested replayer (permuted): %w", err)
+						}
+						add(run[perm[k]], alt.snapshot(), fmt.Sprintf("recovery event %s of the directory removal %v replayed in order %v, %d done", run[perm[k]].String(), crashRunNames(run), perm, k+1), phase, true)
+					}
+				}
+			}
+		}
+		changed, err := fs.apply(e)
+		if err != nil {
+			return nil, fmt.Errorf("nested replayer: %w", err)
+		}
+		if changed {
+			add(e, fs.snapshot(), "recovery event "+e.String(), phase, false)
+		}
+	}
+	return out, nil
+}
+
+func crashRunNames(run []*crashEvent) []string {
+	var out []string
+	for _, e := range run {
+		out = append(out, filepath.Base(e.Path))
+	}
+	return out
+}
+
+// ---------------------------------------------------------------------------------------------
+// the stream
+
+func crashFlavourOf(idx int, flavour string) string {
+	switch flavour {
+	case "all", "":
+		return []string{"sync", "async", "reject", "wal", "sync", "async", "wal", "sync"}[idx%8]
+	case "nested":
+		return "sync"
+	}
+	return flavour
+}
+
+func crashClassWeight(c string) int {
+	switch c {
+	case "compaction-flagged-with-partial-table", "compaction-flagged":
+		return 6
+	case "half-deleted-table-dir":
+		return 5
+	case "several-wal-files", "compaction-unflagged":
+		return 4
+	case "partial-table-dir":
+		return 3
+	case "torn-wal-tail", "wal-without-header", "no-wal-dir":
+		return 2
+	}
+	return 1
+}
+
 func runCrash(res *Result, drv *Driver, seed uint64, n int, tier string, only int) error {
-	return errors.New("stream crash: under construction")
+	switch crashFlavour {
+	case "all", "", "sync", "async", "reject", "wal", "nested":
+	default:
+		return fmt.Errorf("unknown --flavour %q", crashFlavour)
+	}
+	if _, err := exec.LookPath("strace"); err != nil {
+		return fmt.Errorf("strace is needed for crash images: %w", err)
+	}
+	if crashDebugDir != "" {
+		if err := os.MkdirAll(crashDebugDir, 0o755); err != nil {
+			return err
+		}
+	}
+	res.Rule = "distinct abstract image shapes (tables partial/complete, log files header/records/torn, compaction directories flagged or not)"
+	thorough := tier == "thorough"
+	var abnormal []string
+	for idx := 0; idx < n; idx++ {
+		if only >= 0 && idx != only {
+			continue
+		}
+		flavour := crashFlavourOf(idx, crashFlavour)
+		rank := 0
+		for j := 0; j < idx; j++ {
+			if crashFlavourOf(j, crashFlavour) == flavour {
+				rank++
+			}
+		}
+		s := crashGenSession(seed, idx, tier, flavour, rank)
+		res.Cases++
+		res.Stat("flavour:" + flavour)
+		res.Stat("profile:" + flavour + ":" + s.Profile)
+		res.StatN("ops", len(s.Ops))
+		for _, o := range s.Ops {
+			res.Stat("op:" + o.Kind)
+			if o.Invalid {
+				res.Stat("op:invalid-call")
+			}
+			switch {
+			case o.Len > 4*1024*1024:
+				res.Stat("value:>4MiB")
+			case o.Len > 1024*1024:
+				res.Stat("value:>1MiB")
+			case o.Len > 4096:
+				res.Stat("value:>4KiB")
+			case o.Len > 0:
+				res.Stat("value:small")
+			}
+			if o.Kind == "open" || o.Kind == "walopen" {
+				for _, f := range strings.Fields(o.Line)[1:] {
+					if strings.HasPrefix(f, "mem=") || strings.HasPrefix(f, "thr=") || strings.HasPrefix(f, "wbuf=") || strings.HasPrefix(f, "async=") {
+						res.Stat("open:" + f)
+					}
+				}
+			}
+		}
+		dbg := ""
+		if crashDebugDir != "" {
+			dbg = filepath.Join(crashDebugDir, fmt.Sprintf("s%d-%03d", seed, idx))
+		}
+		run, err := crashRunSession(s, dbg)
+		if err != nil {
+			return fmt.Errorf("session %d (%s): %w", idx, flavour, err)
+		}
+		if idx < 3 {
+			res.Sample(s.Describe())
+		}
+		res.StatN("events", len(run.Events))
+		for _, e := range run.Events {
+			res.Stat("event:" + e.Kind)
+		}
+		for k, v := range run.Syscalls {
+			res.StatN("syscall:"+k, v)
+		}
+		if run.ExitCode != 0 {
+			abnormal = append(abnormal, fmt.Sprintf("session %d: child exit %d: %s | %s", idx, run.ExitCode, clipN(run.Stderr, 300), s.Describe()))
+			res.Stat("session-child-abnormal-exit")
+		}
+		for _, o := range s.Ops {
+			if o.Result != "" {
+				r := o.Result
+				if k := strings.IndexByte(r, ' '); k > 0 {
+					r = r[:k]
+				}
+				if strings.HasPrefix(r, "err:other") || strings.HasPrefix(r, "err:panic") {
+					r = r[:9]
+				}
+				res.Stat("result:" + o.Kind + ":" + r)
+			}
+		}
+		res.StatN("image-entries", len(run.Images))
+
+		ev := &crashEval{res: res, idx: idx, run: run, refs: crashBuildRefs(s), prop: crashPropOf(flavour), report: crashFlavour != "nested", badHash: map[string]bool{}}
+		// invalid calls must be rejected (C17, API part as far as it matters here)
+		for i, o := range s.Ops {
+			if o.Invalid && o.ok() {
+				ev.violate("C17", "invalid-call-accepted:"+o.Kind+":key="+crashTokKind(o.KeyTok)+":value="+crashTokKind(o.ValTok),
+					"a call the documented API rejects returned no error", fmt.Sprintf("%s | op %d", s.Describe(), i))
+			}
+		}
+
+		// weights and sampling
+		sel := crashSelectImages(run, thorough)
+		res.StatN("image-entries-checked", len(sel))
+		cache := &crashProbeCache{m: map[string]*crashProbe{}}
+		var fss []*crashFS
+		var hs []string
+		for _, im := range sel {
+			fss = append(fss, im.FS)
+			hs = append(hs, im.Hash)
+		}
+		if err := cache.probeAll(fss, hs, s.Keys, s.Bare); err != nil {
+			return fmt.Errorf("session %d: %w", idx, err)
+		}
+		res.StatN("images-probed", len(cache.m))
+		shapes := map[string]bool{}
+		for _, im := range sel {
+			probe := cache.m[im.Hash]
+			shape := im.Abs.Shape()
+			if !shapes[shape] {
+				shapes[shape] = true
+				res.NoteNontrivial(flavour + ":" + shape)
+			}
+			res.Stat("image-class:" + im.Abs.Class())
+			if probe.Open == "ok" {
+				res.Stat("reopen:ok")
+			} else {
+				res.Stat("reopen:fails")
+			}
+			switch flavour {
+			case "sync", "reject":
+				ev.evalSync(im, probe)
+			case "async":
+				ev.evalAsync(im, probe)
+			case "wal":
+				ev.evalWal(im, probe)
+			}
+		}
+
+		// C10
+		if (crashFlavour == "all" || crashFlavour == "" || crashFlavour == "nested") && !s.Bare {
+			if err := crashRunNested(res, ev, run, sel, cache, thorough); err != nil {
+				return fmt.Errorf("session %d (nested): %w", idx, err)
+			}
+		}
+	}
+	res.StatN("distinct-abstract-shapes", res.Nontrivial)
+	if len(abnormal) > 0 {
+		return fmt.Errorf("%d session children ended abnormally (the library killed the process during normal operation?): %s", len(abnormal), strings.Join(abnormal, " || "))
+	}
+	return nil
+}
+
+func crashTokKind(t string) string {
+	switch t {
+	case "-":
+		return "nil"
+	case ".":
+		return "empty"
+	}
+	return "regular"
+}
+
+// crashSelectImages: thorough = every entry; quick = every entry of the interesting kinds, the others up to a cap.
+func crashSelectImages(run *crashRun, thorough bool) []*crashImage {
+	s := run.S
+	opAt := func(evIdx int) string {
+		for _, o := range s.Ops {
+			if o.BIdx >= 0 && o.BIdx <= evIdx && (o.EIdx < 0 || evIdx <= o.EIdx) {
+				return o.Kind
+			}
+		}
+		return ""
+	}
+	for i, im := range run.Images {
+		w := 1
+		if im.EvIdx >= 0 {
+			e := run.Events[im.EvIdx]
+			switch opAt(im.EvIdx) {
+			case "rotate", "waitflush", "compact", "open", "close", "walopen", "walrotate", "walclose":
+				w = 3
+			}
+			if e.mutating() && !crashIsWalPath(e.Path, s.Bare) {
+				w = 3 // flusher / compactor / recovery at work
+			}
+			if e.Kind == "B" || e.Kind == "E" {
+				if w < 2 {
+					w = 2
+				}
+			}
+			if i+1 < len(run.Images) && run.Images[i+1].EvIdx >= 0 && run.Events[run.Images[i+1].EvIdx].Kind == "E" && w < 2 {
+				w = 2 // last image of an op
+			}
+			if i > 0 && run.Images[i-1].EvIdx >= 0 && run.Events[run.Images[i-1].EvIdx].Kind == "B" && w < 2 {
+				w = 2 // first image of an op
+			}
+		} else {
+			w = 3
+		}
+		if c := im.Abs.Class(); c != "clean" && w < 3 {
+			w = 3
+		}
+		im.Weight = w
+	}
+	if thorough {
+		return run.Images
+	}
+	const capDistinct = 160
+	distinct := map[string]bool{}
+	var out []*crashImage
+	keep := map[*crashImage]bool{}
+	for w := 3; w >= 1; w-- {
+		for _, im := range run.Images {
+			if im.Weight != w {
+				continue
+			}
+			if !distinct[im.Hash] {
+				if len(distinct) >= capDistinct {
+					continue
+				}
+				distinct[im.Hash] = true
+			}
+			keep[im] = true
+		}
+	}
+	for _, im := range run.Images {
+		if keep[im] {
+			out = append(out, im)
+		}
+	}
+	return out
+}
+
+func crashRunNested(res *Result, ev *crashEval, run *crashRun, sel []*crashImage, cache *crashProbeCache, thorough bool) error {
+	s := run.S
+	// candidates: distinct images that re-open fine, the telling ones first, one per abstract shape first
+	var cands []*crashImage
+	seenH := map[string]bool{}
+	for _, im := range sel {
+		if seenH[im.Hash] {
+			continue
+		}
+		seenH[im.Hash] = true
+		if p := cache.m[im.Hash]; p != nil && p.Open == "ok" && !ev.badHash[im.Hash] {
+			cands = append(cands, im)
+		}
+	}
+	if !thorough {
+		limit := 8
+		if crashFlavour == "nested" {
+			limit = 24
+		}
+		sort.SliceStable(cands, func(i, j int) bool {
+			return crashClassWeight(cands[i].Abs.Class()) > crashClassWeight(cands[j].Abs.Class())
+		})
+		var first, rest []*crashImage
+		shapeSeen := map[string]bool{}
+		for _, im := range cands {
+			if sh := im.Abs.Shape(); !shapeSeen[sh] {
+				shapeSeen[sh] = true
+				first = append(first, im)
+			} else {
+				rest = append(rest, im)
+			}
+		}
+		cands = append(first, rest...)
+		if len(cands) > limit {
+			cands = cands[:limit]
+		}
+	}
+	res.StatN("nested:depth1-images-recovered-under-trace", len(cands))
+	nested := make([]*crashNested, len(cands))
+	crashParallel(len(cands), func(i int) {
+		keep := ""
+		if crashDebugDir != "" {
+			keep = filepath.Join(crashDebugDir, fmt.Sprintf("s%d-%03d.nested-ev%d.strace", res.Seed, s.Idx, cands[i].EvIdx))
+		}
+		nested[i] = crashTraceRecovery(cands[i], s.Keys, s.MaxStr, keep)
+	})
+	for _, n := range nested {
+		if n.err != nil {
+			return n.err
+		}
+		res.Stat("nested:class-of-depth1-image:" + n.im.Abs.Class())
+		if n.expected.Open != "ok" {
+			// the same image re-opened fine in the plain probe: recovery is not deterministic
+			ev.violate("C10", "nested:second-recovery-fails:"+n.im.Abs.Class(), "the traced recovery of an image that had re-opened before failed: "+n.expected.Open,
+				ev.caseStr(n.im, n.expected, ""))
+			continue
+		}
+		imgs, err := crashNestedImages(n, thorough)
+		if err != nil {
+			return err
+		}
+		var fss []*crashFS
+		var hs []string
+		for _, x := range imgs {
+			fss = append(fss, x.fs)
+			hs = append(hs, x.hash)
+		}
+		if err := cache.probeAll(fss, hs, s.Keys, false); err != nil {
+			return err
+		}
+		nrec := 0
+		for _, e := range n.events {
+			if e.mutating() && e.Idx <= n.openEnd {
+				nrec++
+			}
+		}
+		res.StatN("nested:recovery-events", nrec)
+		for _, x := range imgs {
+			res.Evaluations++
+			res.Stat("nested:images")
+			if x.perm {
+				res.Stat("nested:images-from-permuted-unlink-order")
+			}
+			res.Stat("nested:image-class:" + x.abs.Class())
+			res.NoteNontrivial("nested:" + x.abs.Shape())
+			p := cache.m[x.hash]
+			prop := "C10"
+			pre := "nested:"
+			if x.phase == "close" {
+				// the recovery was complete, the kill hit the Close() that followed it: an ordinary C02 crash point
+				prop, pre = "C02", "nested-close:"
+				res.Stat("nested:images-in-close-after-recovery")
+			}
+			extra := fmt.Sprintf(" | then recovery of that image interrupted after %s | depth-2 image: %s | depth-2 reopen: %s", x.where, x.abs.Line(), clipN(p.Raw, 400))
+			if p.Open != "ok" {
+				ev.violate(prop, pre+"open-fails:"+crashOpenFailClass(x.abs, p.Open)+":interrupted-at-"+x.at, "re-opening after an interrupted recovery failed: "+p.Open, ev.caseStr(n.im, n.expected, extra))
+				continue
+			}
+			for _, k := range s.Keys {
+				if p.Vals[k] != n.expected.Vals[k] {
+					ev.violate(prop, pre+"content-differs:"+x.abs.Class()+":interrupted-at-"+x.at,
+						fmt.Sprintf("key %s reads %s after the interrupted and repeated recovery, %s after the uninterrupted one", k, p.Vals[k], n.expected.Vals[k]),
+						ev.caseStr(n.im, n.expected, extra))
+					break
+				}
+			}
+		}
+	}
+	return nil
 }
